@@ -36,7 +36,8 @@ prop(
             "completeness: contiguous parent of concrete shape, child sizes concrete, per-axis step symbolic 1..7 "
             "(window inside parent), every axis permutation; huge concrete shapes (element counts >= 2^64, e.g. [2,2^63,2], "
             "[2^32,2^32], [usize::MAX]) with symbolic strides and the corner indices {0,1,size-2,size-1} of each axis; "
-            "capacity expansion of 2x2/3x1/2x3 owned tensors with spare capacity, symbolic axis and new size <= 5; unwind 10-20"),
+            "capacity expansion of contiguous and row-padded 2x2/2x3 owned tensors with spare capacity (axis and new size "
+            "concrete per harness, both grown-layout indices symbolic); unwind 10-20"),
     outside=("ranks > 4, sizes > 4 (rank<=3) / > 3 (rank 4), DynLayout's SmallVec path (same generic function, "
              "instantiated for [usize;N] here), reshape-derived layouts (reshape of a contiguous layout is "
              "contiguous, covered by the step=1 case), TensorBase::expanded_layout (calls the same function)"),
